@@ -116,29 +116,31 @@ theorem step_progress (cb : Cbs) (s s' : St) (evs : List Ev) (h : step cb s = .n
         have hp : 0 < firstFF 64 s.rest := by rw [hrest]; exact firstFF_pos 63 b0 (mk :: hi :: lo :: tl) hb
         exact finish_next_lt s s' _ _ _ (by omega) h
       · split at h
-        · exact finish_next_lt { s with pos := (s.pos + 1) % 256 } s' 2 _ _ (by decide) h
+        · exact finish_next_lt s s' 1 _ _ (by decide) h
         · split at h
-          · exact finish_next_lt s s' 1 _ _ (by decide) h
-          · simp only at h
-            split at h
-            · exact finish_next_lt s s' _ _ _ (by omega) h
-            · split at h
+          · exact finish_next_lt { s with pos := (s.pos + 1) % 256 } s' 2 _ _ (by decide) h
+          · split at h
+            · exact finish_next_lt s s' 1 _ _ (by decide) h
+            · simp only at h
+              split at h
+              · exact finish_next_lt s s' _ _ _ (by omega) h
               · split at h
                 · split at h
-                  · exact readExif_progress cb s s' _ evs h
                   · split at h
-                    · exact readXMP_progress cb s s' _ evs h
-                    · exact finish_next_lt s s' _ _ _ (by omega) h
-                · exact finish_next_lt s s' _ _ _ (by omega) h
-              · split at h
+                    · exact readExif_progress cb s s' _ evs h
+                    · split at h
+                      · exact readXMP_progress cb s s' _ evs h
+                      · exact finish_next_lt s s' _ _ _ (by omega) h
+                  · exact finish_next_lt s s' _ _ _ (by omega) h
                 · split at h
-                  · cases h
-                  · exact finish_next_lt { s with pos := (s.pos + 255) % 256 } s' 2 _ _ (by decide) h
-                · split at h
-                  · cases h
                   · split at h
-                    · exact finish_next_lt s s' 6 _ _ (by decide) h
-                    · exact finish_next_lt s s' _ _ _ (by omega) h
+                    · cases h
+                    · exact finish_next_lt { s with pos := (s.pos + 255) % 256 } s' 2 _ _ (by decide) h
+                  · split at h
+                    · cases h
+                    · split at h
+                      · exact finish_next_lt s s' 6 _ _ (by decide) h
+                      · exact finish_next_lt s s' _ _ _ (by omega) h
     · cases h
 
 /-- with one unit of fuel per unread byte (plus one) the scan always finishes -/
